@@ -7,7 +7,7 @@
    regex / host-range oracle. *)
 From Coq Require Import List NArith ZArith Bool Permutation.
 From PM Require Import Base.Bytes Base.Outcome Gen.GenConsts Model.ScriptAst Model.Enqueue Model.Script Model.Device Model.Client Model.Daemon
-                       Proofs.DeviceInv Proofs.DeviceRun Proofs.DaemonLedger Proofs.DaemonPending Proofs.DaemonFds.
+                       Proofs.DeviceInv Proofs.DeviceRun Proofs.DeviceRunG Proofs.DeviceHang Proofs.DaemonLedger Proofs.DaemonPending Proofs.DaemonFds.
 Import ListNotations.
 Local Open Scope Z_scope.
 
@@ -44,7 +44,10 @@ Section C20.
   (* Device side, every history from start-up (every transport): in every reachable state each device holds a
      descriptor exactly when it is connected or connecting, so
         descriptors beyond the listeners = live clients + attached devices,   children = attached (coprocess) devices,
-     and every device still satisfies the device-layer invariant (no stale descriptor, login bookkeeping consistent). *)
+     and every device still satisfies the device-layer invariant (no stale descriptor, login bookkeeping consistent).
+     The run ALWAYS returns Ok: Hang (the model's loop fuel) is impossible, `boot` carries the device invariant DInvH with the
+     static hypothesis nest_ok (blocks nested at most DMAX = 7 deep; no shipped script nests deeper than 1:
+     SpecBridge.shipped_max_depth; C04_shipped_boot). *)
   Theorem C20_device_descriptors : forall st now plans rs,
     boot compress st -> Z.of_nat (length rs) < INT_MAX - 1 ->
     exists st1 o, dinit st now plans = Ok (st1, o) /\
@@ -52,15 +55,16 @@ Section C20.
       | Ok (st', outs) =>
           open_fds st' = (length (dm_clients st') + length (filter attached (dm_devs st')))%nat /\
           Forall (fun d => dv_has_fd d = attached d) (dm_devs st')
-      | Hang _ => True
       | _ => False
       end.
   Proof.
     intros st now plans rs Hb Hn.
     destruct (daemon_invariant expand_str ranged_sorted ranged_plain sorted rmatch compress short_circuit st now plans rs Hb Hn) as (st1 & o & E & H).
     exists st1, o. split; [exact E|].
-    destruct (drun expand_str ranged_sorted ranged_plain sorted rmatch compress short_circuit st1 rs []) as [[st' outs]| | | |]; try contradiction; [|exact I].
-    destruct H as (_ & _ & Hd & _). split.
+    destruct (drun expand_str ranged_sorted ranged_plain sorted rmatch compress short_circuit st1 rs []) as [[st' outs]| | | |]; try contradiction.
+    destruct H as (_ & _ & HdH & _).
+    assert (Hd : Forall (DInvRG compress) (dm_devs st')) by (eapply Forall_impl; [|exact HdH]; intros d; apply DInvH_RG).
+    split.
     - unfold open_fds, dev_fds. now rewrite (dev_fds_attached compress _ Hd).
     - eapply Forall_impl; [|exact Hd]. intros d Hdd. exact (has_fd_attached compress d Hdd).
   Qed.
